@@ -372,6 +372,12 @@ class FuncInterp:
                 if self._is_container(target.value.id):
                     self.env[target.value.id] = Val(cur.own, cur.elem | v.own | v.elem)
         elif isinstance(target, ast.Attribute):
+            # x.attr = value on (an element of) a memoised result mutates what every later caller receives
+            if not (isinstance(target.value, ast.Name) and target.value.id == "self"):
+                bv_ = self.val(target.value)
+                memo_ = frozenset(o for o in bv_.own if o[0] == "memo")
+                if memo_:
+                    self.write(stmt, "attribute-store", norm(target), memo_)
             # self.attr = value: recorded for class attribute origins
             if isinstance(target.value, ast.Name) and target.value.id == "self" and self.fn.cls is not None:
                 key = (self.fn.cls.qualname, target.attr)
@@ -496,6 +502,10 @@ class FuncInterp:
                 return self._subst_return(self.an.summary(meth), [self.env.get("self", EMPTY)])
             return EMPTY
         bv = self.val(base)
+        # whatever is reachable from a memoised object through its attributes belongs to the memoised result
+        memo = frozenset(o for o in (bv.own | bv.elem) if o[0] == "memo")
+        if memo and e.attr not in ("shape", "dtype", "ndim", "size"):
+            return Val(memo, memo)
         return EMPTY if not bv else Val(frozenset(), frozenset())
 
     def _is_instruction_expr(self, base: ast.AST) -> bool:
@@ -590,6 +600,9 @@ class FuncInterp:
                 if f.attr == "copy":
                     return Val(frozenset(), rv.elem if self._is_container_expr(recv) else frozenset())
                 return EMPTY
+            # copy.copy(x): a shallow copy - the new object's attributes and elements are the original's
+            if last == "copy" and (dotted(f) or "") == "copy.copy" and argv:
+                return Val(frozenset(), argv[0].own | argv[0].elem)
             if self._is_np_module(f):
                 if self.an.opt["track_cnp"] and self._is_connector_np(f) and last not in ("isscalar", "shape", "size", "ndim", "allclose", "isclose", "any", "all", "sum", "prod", "max", "min", "trace", "real_if_close"):
                     inherited = frozenset()
